@@ -18,7 +18,7 @@ MODULES = ["harness.corpus.basic", "harness.corpus.configs", "harness.corpus.mem
 def one_run(cfg, steps):
     env = dict(os.environ)
     env.update({"PYTHONHASHSEED": str(cfg["hashseed"]), "DET_MODULES": cfg["module"], "DET_OFFSET": str(cfg["offset"]),
-                "DET_ORDER": cfg["order"], "DET_STEPS": str(steps), "PYTHONPATH": f"/repo/src:{ROOT}"})
+                "DET_ORDER": cfg["order"], "DET_STEPS": str(steps), "PYTHONPATH": f"{os.environ.get('EXO_SRC', '/repo/src')}:{ROOT}"})
     p = subprocess.run(["/venv/bin/python", "-m", "harness.detrun"], cwd=ROOT, env=env, capture_output=True, text=True,
                        timeout=1500)
     obs = []
